@@ -19,10 +19,10 @@ def C02 : List (String × String) := [
   ("include/yaclib/algo/detail/func_core.hpp", "5b2c97c8b5dd8e9e1231"),
   ("include/yaclib/algo/detail/promise_core.hpp", "17eebd9fe9b94cd3bece"),
   ("include/yaclib/util/result.hpp", "02d528214cef9257e50a"),
-  ("include/yaclib/async/run.hpp", "9a01bdda0c739e951b64"),
+  ("include/yaclib/async/run.hpp", "19c1cc499826161a806e"),
   ("include/yaclib/lazy/schedule.hpp", "73c97044f1102579d26e"),
   ("include/yaclib/lazy/make.hpp", "6b3f7ad711644a70901b"),
-  ("include/yaclib/util/type_traits.hpp", "f26bdcdc59b6bd17152f")
+  ("include/yaclib/util/type_traits.hpp", "25a495806f426fb92900")
 ]
 
 def C03 : List (String × String) := [
@@ -70,7 +70,7 @@ def C05 : List (String × String) := [
 ]
 
 def C06 : List (String × String) := [
-  ("include/yaclib/async/shared_future.hpp", "90cbb11fa77583edc49f"),
+  ("include/yaclib/async/shared_future.hpp", "c106c65e90bd37de3f5a"),
   ("include/yaclib/async/shared_promise.hpp", "e981223351dfea4ac4b0"),
   ("include/yaclib/async/shared_contract.hpp", "1156b89f593ecdb40412"),
   ("include/yaclib/algo/detail/shared_core.hpp", "6741ebf12d26d3a5e6ed"),
